@@ -4542,6 +4542,19 @@ class ParseCtx:
         else:
             return sign * int(text)
 
+    def _convert_int_literal(self, source: lark.Token):
+        """
+        An integer literal of the program: it has to fit one of the integer types of the generated parser
+        """
+
+        try:
+            value = self._convert_int(source.value)
+        except ValueError:
+            value = None
+        if value is None or not (-(1 << 63) <= value < (1 << 64)):
+            raise IllegalParseTree("Integer literal does not fit any integer type", source)
+        return value
+
     def _convert_string(self, escaped_string: str):
         """
         Parse the string `escaped_string`, which is the direct token from lark (still with quotes and escapes)
@@ -4640,9 +4653,9 @@ class ParseCtx:
             return OutputStorage(OutputStorageType.ENUM, name, default_value=default_value, enum_values=list(x.value for
                 x in type_obj.children))
         elif type_obj.data == "str_type":
-            return OutputStorage(OutputStorageType.STR, name, default_value=default_value, str_size=self._convert_int(type_obj.children[0].value))
+            return OutputStorage(OutputStorageType.STR, name, default_value=default_value, str_size=self._convert_int_literal(type_obj.children[0]))
         elif type_obj.data == "unterm_str_type":
-            return OutputStorage(OutputStorageType.STR, name, default_value=default_value, str_size=self._convert_int(type_obj.children[0].value), str_null=False)
+            return OutputStorage(OutputStorageType.STR, name, default_value=default_value, str_size=self._convert_int_literal(type_obj.children[0]), str_null=False)
         elif type_obj.data == "raw_type":
             return OutputStorage(OutputStorageType.RAW, name, raw_underlying=type_obj.children[0].value)
         else:
@@ -4654,7 +4667,7 @@ class ParseCtx:
         """
 
         if expr.data == "math_num":
-            return ProgramData.imbue(ProgramData.imbue(LiteralIntegerExpr(self._convert_int(expr.children[0].value)), DTAG.SOURCE_LINE, expr.meta.line), DTAG.SOURCE_COLUMN, expr.meta.column)
+            return ProgramData.imbue(ProgramData.imbue(LiteralIntegerExpr(self._convert_int_literal(expr.children[0])), DTAG.SOURCE_LINE, expr.meta.line), DTAG.SOURCE_COLUMN, expr.meta.column)
         elif expr.data == "math_char_const":
             return ProgramData.imbue(ProgramData.imbue(LiteralIntegerExpr(ord(self._convert_char_const(expr.children[0].value))), DTAG.SOURCE_LINE, expr.meta.line), DTAG.SOURCE_COLUMN, expr.meta.column)
         elif expr.data == "math_var":
@@ -4730,7 +4743,7 @@ class ParseCtx:
             raise IllegalParseTree("String-typed value encountered for integer-typed expression", expr)
 
         if expr.data == "number_const":
-            val = LiteralIntegerExpr(self._convert_int(expr.children[0].value))
+            val = LiteralIntegerExpr(self._convert_int_literal(expr.children[0]))
             ProgramData.imbue(val, DTAG.SOURCE_LINE, expr.children[0].line)
             ProgramData.imbue(val, DTAG.SOURCE_COLUMN, expr.children[0].column)
             return val
